@@ -82,7 +82,23 @@ def run(res, tier, seed, broken_model):
     structs = [("multi", (("struct", (("a", ("int",)), ("b", ("int",)))), ("int",))),
                ("multi", (("struct", (("a", ("int",)), ("b", ("str",)), ("x1", ("bool",)))), ("struct", (("int", ("int",)),)))),
                ("cell", ("multi", (("struct", (("a", ("int",)), ("b", ("int",)))), ("arr", ("int",)))))]
-    types = structs + list(T.HAND) + [g.gen() for _ in range(300 if tier == "quick" else 8000)]
+    # unions of three members in which one member's component is subsumed by another's and a third is
+    # unrelated: folds over the members that drop or replace subsumed results depend on the visiting order
+    I_, F_, S_ = ("int",), ("float",), ("str",)
+    IF = ("multi", (I_, F_))
+    A1, A2 = ("arr", I_), ("arr", IF)
+    fam = []
+    for x, y, z in ((A1, A2, S_), (("arr", A1), ("arr", A2), S_), (("tup", (I_, I_)), ("tup", (IF, I_)), ("tup", (S_, I_))),
+                    (("struct", (("a", I_),)), ("struct", (("a", IF),)), ("struct", (("a", S_),)))):
+        fam.append(("multi", (("arr", x), ("arr", y), ("arr", z))) if z != S_ or x[0] != "arr" else ("multi", (("arr", x), ("arr", y), S_)))
+        fam.append(("multi", (("fn", (I_,), x), ("fn", (I_,), y), ("fn", (I_,), z))))
+        fam.append(("multi", (("fn", (x,), I_), ("fn", (y,), I_), ("fn", (z,), I_))))
+        fam.append(("multi", (("cell", x), ("cell", y), ("cell", z))))
+        fam.append(("multi", (("tup", (x, I_)), ("tup", (y, I_)), ("tup", (z, I_)))))
+        fam.append(("multi", (("tup", (I_, x)), ("tup", (I_, y)), ("tup", (I_, z)))))
+        fam.append(("multi", (("fn", (), ("tup", (("bool",), x))), ("fn", (), ("tup", (("bool",), y))), ("fn", (), ("tup", (("bool",), z))))))
+        fam.append(("multi", (("struct", (("a", x), ("b", I_))), ("struct", (("a", y), ("b", I_))), ("struct", (("a", z), ("b", I_))))))
+    types = structs + fam + list(T.HAND) + [g.gen() for _ in range(300 if tier == "quick" else 8000)]
     out = harness_run(["type\tdet\t%s\t%d" % (esc_field(T.src(t)), K + 1) for t in types])
     for t, o in zip(types, out):
         res.evaluations += 1
@@ -90,7 +106,7 @@ def run(res, tier, seed, broken_model):
             res.nontrivial.add(T.canon(t))
             if o != "(det eq_fail=0 match_fail=0 set_size=1 cell_fail=0)":
                 res.violation("equal types do not behave equally: %d parses of `%s`: %s" % (K + 1, T.src(t), o),
-                              dict(type=T.src(t), impl=o), dict(oracle="nondeterminism", cls="type-comparison"))
+                              dict(type=T.src(t), impl=o), dict(oracle="nondeterminism", cls="type-query" if "varying=" in o else "type-comparison"))
             else:
                 res.traces_validated += 1
         else:
@@ -132,7 +148,7 @@ def run(res, tier, seed, broken_model):
         else:
             res.traces_validated += 1
     res.samples.append(dict(request=lines[0][:300], answer=runs[0][0][:300]))
-    res.rule = ("types (unions of multi-key structs, cells of unions, hand families, generated to depth 3/4) parsed K+1 times: pairwise ==, "
+    res.rule = ("types (unions of multi-key structs, cells of unions, hand families, generated to depth 3/4) parsed K+1 times: pairwise ==, the 13 static queries (structurally equal answers), "
                 "matches, HashSet size, mut-wrapped match; programs (8 biased families: mixed arrays pulled past exhaustion, cells of "
                 "struct unions, matches in shuffled arm order, folds over union members, unions of function types, modules, unions of "
                 "cells, type filters by struct unions; plus seeded general programs) parsed and run K times in one process and again in "
